@@ -1114,7 +1114,9 @@ func (g *GoFakeS3) ensureBucketExists(bucket string) error {
 		if err := ValidateBucketName(bucket); err != nil {
 			return ResourceError(ErrNoSuchBucket, bucket)
 		}
-		if err := g.storage.CreateBucket(bucket); err != nil {
+		if err := g.storage.CreateBucket(bucket); err != nil && !HasErrorCode(err, ErrBucketAlreadyExists) {
+			// (another request creating the same bucket at the same moment is
+			// no failure: the bucket exists, which is all that is needed)
 			g.log.Print(LogErr, "autobucket create failed:", err)
 			return ResourceError(ErrNoSuchBucket, bucket)
 		}
